@@ -214,6 +214,9 @@ fn base_strategy() -> impl Strategy<Value = Base> {
         2 => Just(Base::Diff(0)),
         2 => (-70_000i64..10_000).prop_map(Base::Diff),
         1 => any::<i64>().prop_map(Base::Diff),
+        // Discrepancies that look acceptable after a truncation to fewer bits: k * 2^p + (something in or near the window).
+        3 => (8u32..=62, 1i64..=4, any::<bool>(), prop_oneof![-59_903i64..=-59_897, 2_987i64..=2_993, -60_000i64..=3_000, Just(0i64)])
+            .prop_map(|(p, k, neg, w)| Base::Diff((if neg { -k } else { k } << p).wrapping_add(w))),
         2 => (0u64..=3_000).prop_map(Base::Abs),
         3 => (u64::MAX - 70_000..=u64::MAX).prop_map(Base::Abs),
         1 => any::<u64>().prop_map(Base::Abs),
@@ -304,7 +307,7 @@ fn replay(_ctx: &Ctx, group: &str, case: &Value) -> CaseResult {
 pub fn def() -> PropDef {
     PropDef {
         id: "C14",
-        rule: "A case is (local time, base time, voucher): the local time is milliseconds + a sub-millisecond part, drawn around the epoch (+-3 s, including negative), at both calendar limits (PrimitiveDateTime::MIN / MAX), in 2020..2030 and uniformly; the base time is floor(local ms) minus a difference around both window edges (-59903..-59897, 2987..2993), 0, random differences, or an absolute value near 0, near 2^64, near 2^63 or uniform; the voucher is the correct one, one for base+-1 / another value, one from the other parameter set found in the crate's tests, or random bits. Oracle in i128: accept iff raffle's checker (with the crate's CHECK string) accepts the voucher for the base, the local time is >= the epoch and -59900 <= floor(local ms) - base <= 2990; new never panics; check agrees with new; get_local_time returns the input. edge-grid enumerates the same edges at 16 anchor times x 4 sub-millisecond parts; now: now() with a provider that answers clock - diff for diffs around both edges must apply the same rule to the clock value handed to the provider. Non-trivial: difference within 2 ms of an edge, or base >= 2^63, or local time within 3 s of the epoch. Distinct: hash of the serialised case / by enumeration.",
+        rule: "A case is (local time, base time, voucher): the local time is milliseconds + a sub-millisecond part, drawn around the epoch (+-3 s, including negative), at both calendar limits (PrimitiveDateTime::MIN / MAX), in 2020..2030 and uniformly; the base time is floor(local ms) minus a difference around both window edges (-59903..-59897, 2987..2993), 0, random differences, k*2^p + w for p = 8..62, k = +-1..4 and w in or around the window (what a truncating cast would fold back into the window), or an absolute value near 0, near 2^64, near 2^63 or uniform; the voucher is the correct one, one for base+-1 / another value, one from the other parameter set found in the crate's tests, or random bits. Oracle in i128: accept iff raffle's checker (with the crate's CHECK string) accepts the voucher for the base, the local time is >= the epoch and -59900 <= floor(local ms) - base <= 2990; new never panics; check agrees with new; get_local_time returns the input. edge-grid enumerates the same edges at 16 anchor times x 4 sub-millisecond parts; now: now() with a provider that answers clock - diff for diffs around both edges must apply the same rule to the clock value handed to the provider. Non-trivial: difference within 2 ms of an edge, or base >= 2^63, or local time within 3 s of the epoch. Distinct: hash of the serialised case / by enumeration.",
         assumptions: &[
             "the millisecond of a local time is its floor, as the crate's constants document (they are 10 ms inside 3 s / 60 s 'to account for rounding, truncation, and off-by-ones')",
             "voucher validity is decided by the raffle crate with the CHECK parameter string quoted from vouched_time/src/lib.rs",
